@@ -339,7 +339,7 @@ func checkC12(r *Report) {
 	e := runEffect(p)
 	cmpTrusted(r)
 	effectTrusted(r)
-	r.Explain = "Structural clauses of 'requirement matching is order-insensitive'. C12.a PURE and C12.b TIEBREAK on every comparator that sorts []resolve.Version (the closures in SortVersions and sortNPMVersions): write-free, and the fall-through return is on no deny-listed form (constant; bare sign test of (*semver.Version).Compare), so semver-equal distinct strings get a total tie-break and the sorted order cannot depend on the input permutation. C12.c BORROWED-ARG: MatchRequirement documents that it may modify the list it is given; no caller passes it a slice owned by a client or cache. Not decided: exactness of the match set and the latest-tag repositioning."
+	r.Explain = "Structural clauses of 'requirement matching is order-insensitive'. C12.a PURE and C12.b TIEBREAK on every comparator that sorts []resolve.Version (the closures in SortVersions and sortNPMVersions): write-free, and the fall-through return is on no deny-listed form (constant; bare sign test of (*semver.Version).Compare), so semver-equal distinct strings get a total tie-break and the sorted order cannot depend on the input permutation. C12.c BORROWED-ARG: MatchRequirement documents that it may modify the list it is given; no caller passes it a slice owned by a client or cache. C12.d EXACT-TAG: for a non-range npm requirement a version is returned only under an equality test between the requirement text and the version string or one tag. Not decided: exactness of the match set for ranges and the latest-tag repositioning."
 	var comps []comparator
 	for _, c := range findComparators(p, p.Funcs) {
 		if c.elem != nil && strings.HasSuffix(c.elem.String(), "deps.dev/util/resolve.Version") && p.pkgOfFn(c.fn).Pkg.Path() == modPrefix+"resolve" {
@@ -378,4 +378,95 @@ func checkC12(r *Report) {
 		}
 	}
 	r.floor("C12.c/BORROWED-ARG", "call sites of MatchRequirement", n, 2)
+	exactTagRule(r, p)
+}
+
+// exactTagRule (C12.d): when an npm requirement is not a range, a version is
+// selected only under an equality test between the requirement text and the
+// version string or one tag. Every return of a singleton result in
+// matchNPMRequirement must be dominated by the true edge of such a test.
+func exactTagRule(r *Report, p *Prog) {
+	rule := "C12.d/EXACT-TAG"
+	f := p.lookupFn("resolve.matchNPMRequirement")
+	if f == nil {
+		r.bad(rule, "resolve.matchNPMRequirement", "", "function not found: anchor lost")
+		return
+	}
+	req := ssa.Value(f.Params[0])
+	fromReq := func(v ssa.Value) bool {
+		return condDerives(v, 0, func(x ssa.Value) bool {
+			switch y := x.(type) {
+			case *ssa.Field:
+				return y.X == req || fromParamCell(y.X, req)
+			case *ssa.UnOp:
+				if fa, ok := y.X.(*ssa.FieldAddr); ok {
+					return fromParamCell(fa.X, req)
+				}
+			}
+			return false
+		})
+	}
+	isEqTest := func(c ssa.Value) bool {
+		switch x := c.(type) {
+		case *ssa.BinOp:
+			return x.Op == token.EQL && (fromReq(x.X) || fromReq(x.Y))
+		case *ssa.Call:
+			n := staticCalleeName(x)
+			if n == "slices.Contains" || n == "slices.Index" {
+				for _, a := range x.Common().Args {
+					if fromReq(a) {
+						return true
+					}
+				}
+			}
+		case *ssa.Extract: // v, ok := set[req.Version]
+			if l, ok := x.Tuple.(*ssa.Lookup); ok && x.Index == 1 {
+				return fromReq(l.Index)
+			}
+		}
+		return false
+	}
+	n := 0
+	for _, b := range f.Blocks {
+		ret, ok := b.Instrs[len(b.Instrs)-1].(*ssa.Return)
+		if !ok || len(ret.Results) != 1 {
+			continue
+		}
+		sl, ok := ret.Results[0].(*ssa.Slice)
+		if !ok {
+			continue
+		}
+		if al, ok := sl.X.(*ssa.Alloc); !ok || !strings.HasPrefix(al.Type().String(), "*[1]") {
+			continue
+		}
+		n++
+		key := fmt.Sprintf("%s: singleton result #%d", fnKey(f), n)
+		guarded := false
+		for _, d := range f.Blocks {
+			ifi, ok := d.Instrs[len(d.Instrs)-1].(*ssa.If)
+			if !ok || !isEqTest(ifi.Cond) {
+				continue
+			}
+			if t := d.Succs[0]; t.Dominates(b) && len(t.Preds) == 1 {
+				guarded = true
+			}
+		}
+		if guarded {
+			r.ok(rule, key, p.pos(ret.Pos()), "returned only under an equality test involving the requirement text")
+		} else {
+			r.bad(rule, key, p.pos(ret.Pos()), "a version is selected for a non-range requirement without an equality test between the requirement text and the version string or a tag: a requirement that merely resembles a tag would select it")
+		}
+	}
+	r.floor(rule, "singleton results of matchNPMRequirement", n, 2)
+}
+
+// fromParamCell: v is the parameter itself or a local cell holding it.
+func fromParamCell(v, prm ssa.Value) bool {
+	if v == prm {
+		return true
+	}
+	if al, ok := v.(*ssa.Alloc); ok {
+		return singleStore(al) == prm
+	}
+	return false
 }
